@@ -10,7 +10,7 @@ Open Scope N_scope.
 Lemma quote_contains_matches_source (s : bstr) (c : N) : mem c s = src_parse_contains s (Z.of_N c).
 Proof.
   unfold src_parse_contains, mem. cbv zeta. rewrite find_existsb.
-  apply existsb_ext. intros a. lia.
+  apply st_existsb_ext. intros a. lia.
 Qed.
 
 (* quote.go unescapes[r] *)
